@@ -7,7 +7,46 @@ import ast
 
 from sa import dataflow as df
 from sa import loop as lp
+from sa.homog import solver_scale_obligations
 from sa.krylov import axis_value, closure, nospace, reductions
+
+
+def polynomial(e, routine):
+    """expression over tol, norm(<initial residual>) and numbers -> {monomial: coefficient}; None outside the fragment.
+    monomial = sorted tuple of (atom, power)"""
+    def mul(p, q):
+        out = {}
+        for m1, c1 in p.items():
+            for m2, c2 in q.items():
+                d = dict(m1)
+                for a, k in m2:
+                    d[a] = d.get(a, 0) + k
+                key = tuple(sorted(d.items()))
+                out[key] = out.get(key, 0.0) + c1 * c2
+        return out
+
+    def go(x):
+        if isinstance(x, ast.Constant) and isinstance(x.value, (int, float)):
+            return {(): float(x.value)}
+        if isinstance(x, ast.Name) and x.id == "tol":
+            return {(("tol", 1), ): 1.0}
+        if isinstance(x, ast.Call) and df.is_xnp_call(x) == "norm" and x.args:
+            return {(("N", 1), ): 1.0}
+        if isinstance(x, ast.BinOp) and isinstance(x.op, (ast.Add, ast.Sub)):
+            l, r = go(x.left), go(x.right)
+            if l is None or r is None:
+                return None
+            out = dict(l)
+            for m, c in r.items():
+                out[m] = out.get(m, 0.0) + (c if isinstance(x.op, ast.Add) else -c)
+            return out
+        if isinstance(x, ast.BinOp) and isinstance(x.op, ast.Mult):
+            l, r = go(x.left), go(x.right)
+            return None if l is None or r is None else mul(l, r)
+        return None
+
+    p = go(e)
+    return None if p is None else {m: c for m, c in p.items() if abs(c) > 1e-12}
 
 
 def find_routine(idx, rep, cls_name):
@@ -89,12 +128,12 @@ def run(idx, rep, tier):
     ok = None
     why = "no re-definition of tol found"
     for v in tol_defs:
-        txt = nospace(v)
-        if "norm(" in txt and "tol" in df.names_in(v):
-            dep = set(df.names_in(v))
-            r0_from_init = any("r0" == n or n.startswith("r") for n in dep)
-            ok = r0_from_init and txt.count("tol") >= 2
-            why = f"tol' = `{ast.unparse(v)}`" + ("" if ok else ": required tol * ||r0|| + tol")
+        if "norm(" in nospace(v) and "tol" in df.names_in(v):
+            # the threshold as a polynomial in (tol, N = ||r0||) must be tol*N + tol, however it is written
+            poly = polynomial(v, routine)
+            want = {(("N", 1), ("tol", 1)): 1.0, (("tol", 1), ): 1.0}
+            ok = None if poly is None else poly == want
+            why = f"tol' = `{ast.unparse(v)}`" + ("" if ok else (": required tol * ||r0|| + tol" if ok is False else ": outside the polynomial fragment"))
     rep.decide(ok, "stopping-test", "cg:tolerance", why, detail="" if ok else "tolerance", locs=[idx.loc(routine.module, routine.node)])
     # ---- scaling in and out by the same quantity
     mult = None
@@ -131,11 +170,17 @@ def run(idx, rep, tier):
             rep.decide(ok, "column-independence", f"{f.short}:{name}:{nospace(call.args[0])[:30] if call.args else ''}",
                        f"`{ast.unparse(call)[:70]}` reduces over axis {av}" + ("" if ok else ": a reduction without the row axis mixes the right-hand-side columns (each column must be solved independently)"),
                        detail="" if ok else f"axis:{av}", locs=[idx.loc(f.module, call)])
+    # ---- HOMOG: relative tolerance, linear solution, cap = the caller's max_iters
+    cond_fns = []
+    if cond is not None and not isinstance(cond, ast.Lambda):
+        cond_fns = closure(idx, cond, same_module=True)
+    solver_scale_obligations(idx, rep, routine, cond_fns, "scale-homogeneity", "cg")
     # ---- bookkeeping of the instrumented while loop
     bookkeeping(idx, rep)
     rep.floor("loop-cap", 1)
     rep.floor("stopping-test", 2)
     rep.floor("scaling", 1)
+    rep.floor("scale-homogeneity", 3)
     rep.floor("column-independence", 4)
     rep.floor("iteration-count", 1)
     rep.explanation = ("LOOP + DEP: cap conjunct k < max_iters with k from 0 by +1 per body; the loop continues while any column's residual norm exceeds tol' = tol*||r0|| + tol; the "
